@@ -1,4 +1,5 @@
 import AquaVerif.Proofs.WeatherBind
+import AquaVerif.Proofs.GwSeries
 import AquaVerif.Model.RunShape
 /-
 Property C14 — no look-ahead: past outputs do not depend on future weather.
@@ -78,6 +79,29 @@ theorem extension_same_state (step : σ → ω → σ × ρ) (s₀ : σ) (ws ext
   induction ws generalizing s₀ with
   | nil => rfl
   | cons w ws ih => simp [finalState, ih]
+
+/-- **Extending the end date keeps the water-table series** ("Variable" method of
+`read_groundwater_table`, `Model/GwSeries.lean`): a day covered by a simulation of `n` days and by
+one of `n'` days (same start, same table of observations) gets the same table depth in both —
+whatever the dates of the observations, inside either period or not.  (The series is built by
+interpolation in time over the dated observations; the length of the simulation does not enter.) -/
+theorem extending_end_keeps_water_table_series {α : Type} [Field α] [LinearOrder α]
+    [IsStrictOrderedRing α] (n n' : Nat) (obs : List (Int × α)) (i : Nat) (hn : i < n)
+    (hn' : i < n') : (Aqua.gwVariable n obs)[i]? = (Aqua.gwVariable n' obs)[i]? :=
+  Aqua.gw_variable_window_independent n n' obs i hn hn'
+
+/-- … as lists: the series of the shorter simulation is a prefix of the series of the longer one. -/
+theorem extending_end_water_table_series_prefix {α : Type} [Field α] [LinearOrder α]
+    [IsStrictOrderedRing α] (n n' : Nat) (obs : List (Int × α)) (h : n ≤ n') :
+    (Aqua.gwVariable n' obs).take n = Aqua.gwVariable n obs :=
+  Aqua.gw_variable_take n n' obs h
+
+/-- non-vacuity: an observation after the end of the short run (day 7 of 4) — the first four days of
+the 10-day series are the 4-day series -/
+example : (Aqua.gwVariable 10 [((1 : Int), (1 : ℚ)), (7, 4)]).take 4 =
+    Aqua.gwVariable 4 [((1 : Int), (1 : ℚ)), (7, 4)] ∧
+    Aqua.gwVariable 4 [((1 : Int), (1 : ℚ)), (7, 4)] = [none, some 1, some (3/2), some 2] := by
+  decide +kernel
 
 /-- non-vacuity: a concrete day function (running sum) on two series that differ from day 2 on -/
 example : (runDays (fun (s : Nat) (w : Nat) => (s + w, s + w)) 0 [1, 2, 3, 4]).take 2
